@@ -25,6 +25,16 @@ Theorem C05_partial : forall c nw sched,
 Proof. exact c05_partial. Qed.
 Print Assumptions C05_partial.
 
+(* workers may also sit inside the application (a streaming application that waits for its
+   consumer): then at most send_bytes - 1 bytes are left unsent (0 for the default send_bytes = 1) *)
+Theorem C05_app_partial : forall c nw sched,
+  1 <= hw c -> sb c <= hw c -> (0 < nw)%nat ->
+  quiescent_app (runc c nw sched) = true ->
+  in_kf_class (runc c nw sched) = false ->
+  app_ok c (runc c nw sched) = true.
+Proof. exact c05_app_partial. Qed.
+Print Assumptions C05_app_partial.
+
 Theorem C05_partial_unfolded : forall c nw sched s,
   1 <= hw c -> (0 < nw)%nat -> s = runc c nw sched ->
   quiescent_parked s = true -> taint s = false -> existsb parked_after_close (ws s) = false ->
